@@ -35,10 +35,11 @@ impl TupleAccess {
 
 impl ReturnType for TupleAccess {
     fn return_type(&self) -> crate::variable::Type {
+        // (a tuple expression that was folded to one of type ! never yields a value, so neither does the access)
         self.tuple
             .return_type()
             .tuple_element_at(self.index)
-            .unwrap()
+            .unwrap_or(crate::variable::Type::Never)
     }
 }
 
